@@ -305,6 +305,9 @@ def check(ctx: Ctx) -> None:
     # source kind, read sizes, fragmentations, prefix 0/3) applied to packets built here
     from . import framer as F
     ctx.guard("R13.f", F.GEN, F.framing_cases, ctx, "R13.f", truncation=False, level=0)
+    # ... also through the definition's generator in header-only mode, with and without a per-record prefix
+    from .c10 import definition_level
+    ctx.guard("R13.c", "xtce/definitions.py", definition_level, ctx, "R13.c")
     from ..core import REFUTED, UNKNOWN
     if any(o.verdict == REFUTED and o.rule == "R13.w" for o in ctx.obs):
         for o in ctx.obs:
@@ -464,7 +467,7 @@ SPEC = PropSpec(
     title="Primary-header construction and header accessors are exact inverses",
     check=check,
     floors={"R13.accessor": 6, "R13.pack": 6, "R13.range": 7, "R13.reject-type": 7, "R13.length-term": 1,
-            "R13.framer-length": 1, "R13.to-bytes": 1, "R13.concat": 1, "R13.w": 1, "R13.f": 10},
+            "R13.framer-length": 1, "R13.to-bytes": 1, "R13.concat": 1, "R13.w": 1, "R13.f": 10, "R13.c": 6},
     fallback={r: ("R13.w",) for r in ("R13.pack", "R13.range", "R13.concat", "R13.length-term", "R13.to-bytes",
                                       "R13.reject-type", "R13.reject-dominates", "R13.framer-length", "R13.header-values",
                                       "R13.accessor", "R13.tiling", "R13.data-length", "R13.pack-vs-accessor")},
